@@ -332,7 +332,22 @@ func genC11(t *rapid.T) c11Case {
 	alpha := []byte(c11Alphabet + "\t\n.,_+♯b")
 	muts := rapid.IntRange(0, 3).Draw(t, "muts")
 	for i := 0; i < muts; i++ {
-		switch rapid.IntRange(0, 7).Draw(t, "kind") {
+		switch rapid.IntRange(0, 8).Draw(t, "kind") {
+		case 8: // one or two further names behind it: the neighbouring notes (a run out of a table of names) or any
+			for k := rapid.IntRange(1, 2).Draw(t, "moreNames"); k > 0; k-- {
+				m := n + 1
+				if rapid.IntRange(0, 2).Draw(t, "anyName") == 0 || m > 127 {
+					m = rapid.IntRange(0, 127).Draw(t, "otherName")
+				}
+				p2, o2 := refName(m)
+				name2 := fmt.Sprintf("%s%d", p2, o2)
+				if rapid.Bool().Draw(t, "lower2") {
+					name2 = strings.ToLower(name2)
+				}
+				sep := rapid.SampledFrom([]string{" ", " ", " ", "  ", ",", "\t", "", "-", "/"}).Draw(t, "sep")
+				s = append(s, []byte(sep+name2)...)
+				n = m
+			}
 		case 6: // a blank before, after or inside
 			pos := rapid.SampledFrom([]int{0, len(s), len(s), rapid.IntRange(0, len(s)).Draw(t, "blankPos")}).Draw(t, "where")
 			sym := rapid.SampledFrom([]byte{' ', ' ', '\t'}).Draw(t, "blank")
